@@ -546,3 +546,38 @@ impl MqttMetricsProbe {
         }
     }
 }
+
+/// A call on the target's `MqttStatusReporter` that touches `MqttMetrics`.
+#[derive(Clone, Debug, PartialEq, Eq)]
+pub enum ReporterCall {
+    Connected,
+    Disconnected,
+    ConnectionError,
+    Reconnecting,
+    PublishOk(String),
+    PublishError,
+    InflightUpdate(u16),
+}
+
+impl MqttMetricsProbe {
+    /// Makes one call on the runner's real status reporter (what the run
+    /// loop and the event-loop task do), without running either.
+    pub fn report(&self, call: &ReporterCall) {
+        let dest: Destination = self.runner.config.load().destination.clone();
+        match call {
+            ReporterCall::Connected => self.status.connected(&dest),
+            ReporterCall::Disconnected => self.status.disconnected(&dest),
+            ReporterCall::ConnectionError => {
+                self.status.connection_error("scripted")
+            }
+            ReporterCall::Reconnecting => {
+                self.status.reconnecting(Duration::from_secs(1))
+            }
+            ReporterCall::PublishOk(topic) => {
+                self.status.publish_ok(topic.clone())
+            }
+            ReporterCall::PublishError => self.status.publish_error("scripted"),
+            ReporterCall::InflightUpdate(n) => self.status.inflight_update(*n),
+        }
+    }
+}
